@@ -51,6 +51,7 @@ var scanRules = map[string]scanRule{
 	"idx-guard":        func(a *scandfa.Analysis) []*report.RuleResult { return []*report.RuleResult{a.IdxGuard()} },
 	"no-rescan":        func(a *scandfa.Analysis) []*report.RuleResult { return []*report.RuleResult{a.NoRescan()} },
 	"eof-final":        func(a *scandfa.Analysis) []*report.RuleResult { return []*report.RuleResult{a.EofFinal()} },
+	"num-classify":     func(a *scandfa.Analysis) []*report.RuleResult { return []*report.RuleResult{a.NumClassify()} },
 	"progress":         func(a *scandfa.Analysis) []*report.RuleResult { return []*report.RuleResult{a.Progress()} },
 }
 
